@@ -88,9 +88,30 @@ class World(HWorld):
 
     def mutation_raised(self, h, cmd, exc):
         if self.fired:
-            # the store refused the *first* write of the operation and kept nothing of it:
-            # nothing has changed, so the trie must be as exact as it was (checked in after())
+            # The store refused a write of the operation and kept nothing of it.  C06 itself
+            # says nothing about storage failures, and a failed operation may leave garbage
+            # (nodes stored or counted for a parent that never came to be: the unchanged code
+            # does so when a later write fails).  What no correct implementation does: lose
+            # anything, move the root, count a node the store does not hold, or count a live
+            # node less often than it is referenced.  The run ends here, because exactness
+            # cannot be demanded of what follows.
+            r = self.ref(h)
+            raw = self.db.raw()
+            if h.trie.root_hash != r.root_hash:
+                self.viol("refcount-mismatch", f"a direct {cmd['op']} was ended by a refused write, yet the root moved")
+            for k, body in r.body.items():
+                if raw.get(k) != body:
+                    self.viol("db-missing-live-node", f"after a direct {cmd['op']} ended by a refused write, live node {k.hex()} is missing or altered")
+            rc = {k: v for k, v in h.trie.ref_count.items() if v > 0}
+            for k, v in rc.items():
+                if k not in raw:
+                    self.viol("refcount-mismatch", f"after a direct {cmd['op']} ended by a refused write, ref_count[{k.hex()}] == {v} for a node the store does not hold")
+            for k, v in r.count.items():
+                if rc.get(k, 0) < v:
+                    self.viol("refcount-mismatch", f"after a direct {cmd['op']} ended by a refused write, ref_count[{k.hex()}] == {rc.get(k, 0)}, the node is referenced {v} time(s)")
             self.st.probe("first-write-refused-then-exactness-checked")
+            self.changed = False
+            self.stop = True
             return "failed:" + type(exc).__name__
         return super().mutation_raised(h, cmd, exc)
 
@@ -259,9 +280,10 @@ def generate(rng):
             cmds.insert(b, {"op": "by2close"})
             cmds.insert(a, {"op": "by2open", "ops": ops})
     if rng.random() < 0.3:
-        # the store refuses the first write of some direct operations (nothing is kept)
-        for c in cmds:
-            if c["op"] in ("set", "del", "sete") and c.get("on") == "live" and rng.random() < 0.1:
+        # the store refuses the first write of a direct operation near the end of the history
+        # (nothing is kept; the run ends with the first refusal that fires)
+        for c in cmds[len(cmds) * 2 // 3 :]:
+            if c["op"] in ("set", "del", "sete") and c.get("on") == "live" and rng.random() < 0.3:
                 c["fw"] = [1, 0, rng.choice("EKOB")]
     return {"prop": ID, "cfg": {"prune": True, "cache": cache, "rc": rng.choice(["defaultdict", "defaultdict", "counter"]), "ask_dead": int(rng.random() < 0.5), "store": rng.choice(STORE_FLAVOURS)}, "cmds": cmds}
 
